@@ -254,3 +254,6 @@ def run(ck, F, tier):
     peq = [i for i in F.impls if i.get("trait") == "std::cmp::PartialEq" and i.get("self_ty") == "sparse::SparseMatrix"]
     derived = len(peq) == 1 and "derive" in (peq[0].get("expn") or "")
     ck.inst("X4", "derived-eq", derived, adt["span"], "PartialEq for SparseMatrix is the derived field-wise comparison (%s)" % (peq[0].get("expn") if peq else None))
+    if tier == "thorough":
+        from ..witness import check_witnesses
+        check_witnesses(ck, "X4", ["W1"])
